@@ -113,7 +113,7 @@ type spkOp struct {
 	Cluster *vw.ClusterSpec `json:"cluster,omitempty"`
 	Alive   []bool          `json:"alive,omitempty"`
 	Pick    int             `json:"pick,omitempty"`
-	Narrow  int             `json:"narrow,omitempty"` // svc-ips: 1 = keep only the first of the current addresses, 2 = keep only the second
+	Narrow  int             `json:"narrow,omitempty"` // svc-ips: 1 = keep only the first of the current addresses, 2 = keep only the second, 3 = keep the first and replace the second
 }
 
 type spkCase struct {
@@ -243,12 +243,15 @@ func genSpkIPs(rt *rapid.T, cl vw.ClusterSpec) []string {
 	}
 	a := rapid.SampledFrom(cands).Draw(rt, "ip")
 	out := []string{a}
-	if base == "poolA" && rapid.IntRange(0, 3).Draw(rt, "dual") == 0 {
+	if base == "poolA" && rapid.IntRange(0, 1).Draw(rt, "dual") == 0 {
+		var others []string
 		for _, b := range cands {
 			if strings.Contains(b, ":") != strings.Contains(a, ":") {
-				out = append(out, b)
-				break
+				others = append(others, b)
 			}
+		}
+		if len(others) > 0 {
+			out = append(out, rapid.SampledFrom(others).Draw(rt, "ip2"))
 		}
 	}
 	return out
@@ -281,8 +284,8 @@ func genSpkCase(rt *rapid.T) spkCase {
 			op.Svc = rapid.IntRange(0, 3).Draw(rt, "svc")
 			s := spkSvc{IPs: genSpkIPs(rt, cur)}
 			op.New = &s
-			if rapid.IntRange(0, 3).Draw(rt, "narrow") == 0 {
-				op.Narrow = rapid.IntRange(1, 2).Draw(rt, "narrowTo") // a dual-stack service loses one of its addresses
+			if rapid.IntRange(0, 1).Draw(rt, "narrow") == 0 {
+				op.Narrow = rapid.IntRange(1, 3).Draw(rt, "narrowTo") // a dual-stack service loses one of its addresses, or (3) only its second address is replaced
 			}
 		case k == 6:
 			op.Kind = "svc-type"
@@ -405,7 +408,7 @@ func newSpkSim(w *vw.World, sl *vfSpeakerList, ignore bool) *spkSim {
 		panic(err)
 	}
 	// layer 2 exactly as newController wires it, but over an announcer without goroutines
-	s.ann = layer2.VerifNewAnnounce([]string{"ifA", "ifB"})
+	s.ann = layer2.VerifNewAnnounceN([]string{"ifA", "ifB"}, 1024) // drained after every reconciliation; a big queue per instance only feeds the garbage collector
 	c.protocolHandlers[config.Layer2] = &layer2Controller{announcer: s.ann, myNode: spkMe, sList: sl, ignoreExcludeLB: ignore, onStatusChange: func(types.NamespacedName) {}}
 	c.protocols = append(c.protocols, config.Layer2)
 	c.layer2StatusFetchFunc = s.ann.GetStatus
@@ -897,7 +900,26 @@ func runSpk(c spkCase, tr *vw.Trace, j05, j09 bool) *vw.Violation {
 					withdraw = true
 					tr.Class("address-changed-or-cleared")
 				}
-				if op.Narrow > 0 && len(s.IPs) == 2 {
+				if op.Narrow == 3 && len(s.IPs) == 2 {
+					old, repl := s.IPs[1], ""
+					for _, cands := range spkAddrs {
+						for i, c := range cands {
+							if c != old || repl != "" {
+								continue
+							}
+							for j := 1; j < len(cands); j++ { // the next candidate of the same family in that pool
+								if n := cands[(i+j)%len(cands)]; strings.Contains(n, ":") == strings.Contains(c, ":") && n != c && n != s.IPs[0] {
+									repl = n
+									break
+								}
+							}
+						}
+					}
+					if repl != "" {
+						s.IPs = []string{s.IPs[0], repl}
+						tr.Class("second-address-replaced")
+					}
+				} else if op.Narrow > 0 && op.Narrow < 3 && len(s.IPs) == 2 {
 					s.IPs = []string{s.IPs[op.Narrow-1]}
 					tr.Class("dual-stack-service-narrowed")
 				} else {
